@@ -84,10 +84,10 @@ theorem inside_can_leave (s : Occ) : (0 < s.readers → (step s .exitR).isSome =
 
 /-! ### 2b. no deadlock: what an operation does while it holds a scope's lock (regenerated on every run) -/
 
-/-- the calls the env methods make while the scope's mutex is held, as audited: `Addr` (read lock, released by a deferred
-unlock) asks the external lookup and goes on to the PARENT scope; `String` formats under its lock. Nothing else calls
-anything while holding the lock - in particular no method locks a second scope other than the parent, and none re-enters
-a method of the same scope. -/
+/-- the calls the env methods make while the scope's mutex is held, as audited: `String` formats under its lock. Nothing else
+calls anything while holding the lock (Addr used to ask the external lookup and the parent under its read lock; since the repair it
+releases the lock first, like GetValue and Type) - in particular no method locks a second scope and none re-enters a method of the
+same scope.  The list keeps Addr's former entries: a subset is fine, anything new is not. -/
 def auditedHeldCalls : List (String × String × Bool) := [
   ("Addr", "external:Get", true), ("Addr", "other:v.Addr", true), ("Addr", "other:v.CanAddr", true),
   ("Addr", "pkg:fmt.Errorf", true), ("Addr", "up:Addr", true),
